@@ -35,7 +35,9 @@ _VIEWS = {}
 
 def _view(pid):
     if pid not in _VIEWS:
-        _VIEWS[pid] = getattr(REGISTRY[pid](), "view", lambda o: o)
+        m = REGISTRY[pid]()
+        # a module may offer a wider view for run-to-run comparison than the one its model covers
+        _VIEWS[pid] = getattr(m, "view_det", None) or getattr(m, "view", lambda o: o)
     return _VIEWS[pid]
 
 
